@@ -149,6 +149,19 @@ PROPS = {
                  "stored lists longer than 2, text longer than 1 character"],
         assumptions=["a SQLite/SQLAlchemy commit is atomic and durable", "closing a session discards uncommitted changes"],
     ),
+    "C19": dict(
+        modules=["harness.c19"],
+        level="other",
+        explanation="Bounded symbolic execution of the real ProxyKmipClient, KMIPProxy and KMIPProtocol over a fake "
+                    "socket: the scripted answer is encoded by the real server-side writers with symbolic status, "
+                    "reason, message, identifier and Operation presence and handed out in chunks; the emitted request "
+                    "is decoded by the real server-side reader and walked by the independent TTLV walker.",
+        stubs=["FakeSocket (stream + chunk sizes, captures sendall)", "binascii.hexlify -> b'' (DEBUG text)",
+               "NullLogger", "client configuration read from the package's kmipconfig.ini outside tracing"],
+        outside=["TLS/socket setup, configuration-file handling", "methods not in the table (listed in bounds)",
+                 "message and identifier texts longer than 2 characters; non-printable text"],
+        assumptions=["a legal failure response carries status and reason; the message is optional (KMIP 1.x 6.11)"],
+    ),
     "C15": dict(
         modules=["harness.c15"],
         level="other",
@@ -206,6 +219,17 @@ PROPS = {
 }
 
 CLAIMS = {
+    "C19": dict(
+        text="For each client method in the table and KMIP version, and every legal response in the bounds (status, "
+             "any reason, message absent or any printable text, Operation field present or not, identifier text), "
+             "delivered in any chunking in the bounds, the real client returns exactly the carried data on success and "
+             "raises the failure error with exactly status, reason and message otherwise; KMIPProtocol.read returns "
+             "exactly the framed bytes for every chunking and raises when the stream ends early; every request a "
+             "method emits, before and after a version switch, is well-formed TTLV, decodes with the server reader, "
+             "names the client's current version and carries the arguments.",
+        note="Socket stubbed; responses produced by the real server-side writers; one listed known finding (failure "
+             "response without Result Message).",
+    ),
     "C09": dict(
         text="PARTIAL: crash points, journals and fsync are outside any encoding; what is decided is the reduction "
              "'every state-changing operation does all its store mutations in one transaction that ends with its "
